@@ -1,5 +1,6 @@
 import Driver.Util
 import NutsModel.C14.Notifier
+import NutsModel.C14.Options
 import NutsModel.Facts.C14
 open Lean Nuts.Drv Nuts.C14 Nuts
 
@@ -114,6 +115,58 @@ def afterAll (c : Cfg) (σ : St) (orders : List (List Nat)) (nPending : Nat) : S
     | [] => st := afterCommit c st []
   return st
 
+
+/-! ### deepening round: construction side (NutsModel.C14.Options) -/
+
+def parseOpt (j : Json) : Option Opt :=
+  match jStr j "k" with
+  | "delay" => some (.retryDelay (jInt j "v"))
+  | "pers" => some (.persistency (jNat j "v"))
+  | "filter" => some (.filter (parseFilter (jObj j "f")))
+  | "ctx" => some (.context (jNat j "v"))
+  | _ => none
+
+def showSaveKind : SaveKind → String
+  | .nonPersistent => "nonPersistent" | .differentDB => "differentDB" | .filtered => "filtered" | .proceed => "proceed"
+
+def stepNew (j : Json) : String :=
+  let d : Int := Nuts.Facts.C14.defaultRetryDelayNs
+  let regs := (jArr j "regs").map fun r => (jStr r "name", (jArr r "opts").filterMap parseOpt)
+  let (reg, status) := regs.foldl (fun (acc : List NCfg × List String) r =>
+      let (reg', ok) := register d acc.1 r.1 r.2
+      (reg', acc.2 ++ [if ok then "ok" else "dup"])) ([], [])
+  let ev := jObj j "ev"
+  let ty : EvType := if jStr ev "type" == "payload" then .payload else .tx
+  let rows := reg.map fun n =>
+    s!"{n.name}:{n.persistent}:{n.db.getD 0}:{n.retryDelay}:{n.filters.length}:{n.shelfName}:{n.counters}:{n.ctx}:{showSaveKind (saveKind n (jNat j "txdb") (jBool ev "pal") (jStr ev "ptype") ty)}"
+  s!"new|{String.intercalate "," status}|{String.intercalate ";" rows}|listed=true"
+
+def stepRetry (j : Json) : String :=
+  match retryAttemptsM (Int.ofNat Nuts.Facts.C14.maxRetries) (jInt j "retries") with
+  | some a => s!"retry|attempts={a}"
+  | none => "retry|attempts=0"
+
+def npOutcome : String → Outcome
+  | "done" => .done | "notDone" => .notDone | "fatal" => .fatal | _ => .fail
+
+def stepNP (j : Json) : String :=
+  let behL := (jStrs j "beh").map npOutcome
+  let rest := npOutcome (jStr j "rest")
+  let beh : Nat → Outcome := fun k => match behL[k]? with | some o => o | none => rest
+  let retries := jInt j "retries"
+  -- the receiver of a non-persistent notifier sees the event as handed in: Retries never changes
+  let calls :=
+    if !jBool j "accept" then 0
+    else match npNotifyNow (beh 0) with
+      | .err =>
+        -- notifier.retry on the machine value of Retries (a negative / overflowing value starts no loop)
+        1 + (match retryAttemptsM (Int.ofNat Nuts.Facts.C14.maxRetries) retries with
+             | some a => npLoop beh a.toNat 1
+             | none => 0)
+      | _ => 1
+  let seen := if calls == 0 then "-" else s!"{retries}"
+  s!"np|calls={calls}|seen={seen}|failed={npFailedEvents.length}:<nil>|run=<nil>:0|fin=<nil>"
+
 def privateSub : Nat := 1
 
 def step (d : DSt) (j : Json) : DSt × List String :=
@@ -138,6 +191,9 @@ def step (d : DSt) (j : Json) : DSt × List String :=
       | some g => decide (g < backoff dNs Nuts.Facts.C14.retryMaxDelayNs (jNat j "k" + 1) k)
       | none => true
     (d, [if bad.isEmpty then s!"timing|n={gaps.length}" else s!"timing|sleep shorter than back-off at attempts {bad}"])
+  | "o14new" => (d, [stepNew j])
+  | "o14retry" => (d, [stepRetry j])
+  | "o14np" => (d, [stepNP j])
   | op =>
     match d.cfg with
     | none => (d, ["bad-op:no-config"])
